@@ -98,7 +98,7 @@ class GpOptimiser:
     ):
         self.x = x if isinstance(x, ndarray) else array(x)
         if self.x.ndim == 1:
-            self.x.resize([self.x.size, 1])
+            self.x = self.x.reshape([self.x.size, 1])
         self.y = y if isinstance(y, ndarray) else array(y)
         self.y_err = y_err if isinstance(y_err, (ndarray, type(None))) else array(y_err)
 
@@ -144,7 +144,7 @@ class GpOptimiser:
         """
         new_x = new_x if isinstance(new_x, ndarray) else array(new_x)
         if new_x.shape != (1, self.x.shape[1]):
-            new_x.resize((1, self.x.shape[1]))
+            new_x = new_x.reshape((1, self.x.shape[1]))
         new_y = new_y if isinstance(new_y, ndarray) else array(new_y)
         good_type = isinstance(new_y_err, (ndarray, type(None)))
         new_y_err = new_y_err if good_type else array(new_y_err)
